@@ -654,13 +654,17 @@ func collideSpecials(c *Ctx, r *Rng) error {
 				return fmt.Errorf("special %s does not load: %v %v", sp.Name, e1, e2)
 			}
 			var a, b string
+			fnSuffix := ".Special"
+			if sp.Changed != "" {
+				fnSuffix = "." + sp.Changed
+			}
 			for _, x := range rP {
-				if strings.HasSuffix(x.FunctionName, ".Special") {
+				if strings.HasSuffix(x.FunctionName, fnSuffix) {
 					a = x.Fingerprint
 				}
 			}
 			for _, x := range rQ {
-				if strings.HasSuffix(x.FunctionName, ".Special") {
+				if strings.HasSuffix(x.FunctionName, fnSuffix) {
 					b = x.Fingerprint
 				}
 			}
@@ -673,8 +677,12 @@ func collideSpecials(c *Ctx, r *Rng) error {
 			c.Skip("special_diff_error")
 			continue
 		}
+		changed := "Special"
+		if sp.Changed != "" {
+			changed = sp.Changed
+		}
 		for _, fd := range dout.Functions {
-			if fd.Function == "Special" && fd.Status == "preserved" {
+			if fd.Function == changed && fd.Status == "preserved" {
 				how := "structural-match"
 				if fd.FingerprintMatch {
 					how = "fingerprint-match"
